@@ -12,6 +12,8 @@ CONSTANTS
   FixCancelSwallow = TRUE
   NetErrorDelay = 10000
   NoUserDelay = 600000
+  AnswerWaitMax = 60000
+  Slack = 1000
 INVARIANT NoLostCall
 INVARIANT ServerMirrorsWant
 INVARIANT SettledState
@@ -19,6 +21,7 @@ INVARIANT EventsAgree
 INVARIANT DroppedOnClose
 INVARIANT RetryAfterDocumentedDelay
 INVARIANT CloseCompletes
+INVARIANT RetryHappens
 PROPERTY AddOnlyOnRiseT
 PROPERTY RemoveOnlyOnFallT
 CHECK_DEADLOCK TRUE
